@@ -52,7 +52,7 @@ func (vout) IsTerminal() bool { return false }
 
 type vos struct {
 	args   []string
-	files  memFS
+	files  fs.FS
 	stdout *bytes.Buffer
 	stderr *bytes.Buffer
 }
@@ -72,7 +72,7 @@ func (o *vos) History() ([]string, error)                        { return nil, n
 func (o *vos) Readline(opts interp.ReadlineOpts) (string, error) { return "", io.EOF }
 
 // runFq runs the real interpreter's Main with the given command line and returns stdout, stderr.
-func runFq(files memFS, args ...string) (stdout string, stderr string, err error) {
+func runFq(files fs.FS, args ...string) (stdout string, stderr string, err error) {
 	o := &vos{args: append([]string{"fq"}, args...), files: files, stdout: &bytes.Buffer{}, stderr: &bytes.Buffer{}}
 	defer func() {
 		if r := recover(); r != nil {
